@@ -7,7 +7,7 @@
 (* Events (seconds relative to the start of the run, as the HOST's clock   *)
 (* -- the same machine's wall clock -- shows them):                        *)
 (*  {"e":"step","secs":k}            the wall clock now runs k s off true  *)
-(*  {"e":"recv","id":r,"wall":w,"dates":n,"stamp":s,"parsed":b,            *)
+(*  {"e":"recv","id":r,"wall":w,"dates":n,"stamp":s,"parsed":b,"claims":n, *)
 (*   "clientCopy":b,"own":b}         the host received a request at wall   *)
 (*                                   time w carrying n date headers, the   *)
 (*                                   first one reading s                   *)
@@ -31,6 +31,8 @@ Spec == Init /\ [][Next]_tvars
 
 IsRecv == last.e = "recv"
 P_C05_OneProxyDate == IsRecv => (last.dates = 1 /\ ~last.clientCopy /\ last.parsed)
+\* whatever the request method, and whatever the host said about ITS clock in earlier responses
+P_C05_OneProxyClaims == (IsRecv /\ ~last.own) => last.claims = 1
 P_C05_DateIsCurrent == (IsRecv /\ last.parsed) => (last.stamp >= last.wall - 5 /\ last.stamp <= last.wall + 1)
 Accepted == IF TLCGet("stats").diameter - 1 = Len(Rec) THEN TRUE
             ELSE PrintT(<<"UNMATCHED", TLCGet("stats").diameter, Len(Rec)>>) /\ FALSE
